@@ -167,3 +167,38 @@ CONTRACTS.append(Contract(
     ghost={'externals': {'super().load': {'result': 'any', 'raises_any': True, 'as': 'base_load'}}},
     serves=["C16", "C02"],
     notes="the base class's (cached) load is an event of the ghost trace"))
+
+
+# ---------------------------------------------------------------------------------------
+# ModuleLoader._load (C15): a cached module becomes visible to later loads (sys.modules) only after
+# its code has run to completion -- an interrupted load leaves nothing registered, so a retry starts
+# over instead of handing out a truncated module.
+# ---------------------------------------------------------------------------------------
+LEXT2 = {
+    'acquire_lock': {}, 'release_lock': {},
+    'sys.modules.get': {'result': 'any', 'as': 'registered'},
+    'SourceFileLoader': {'result': 'any', 'as': 'mkloader'},
+    'spec_from_loader': {'result': 'any', 'as': 'mkspec'},
+    'module_from_spec': {'result': 'any', 'as': 'mkmodule'},
+    'loader.exec_module': {'raises_any': True, 'as': 'exec'},
+}
+LOCKED = "ext_names()[0] == 'acquire_lock' and ext_names()[-1] == 'release_lock'"
+CONTRACTS.append(Contract(
+    ML + "._load", params={"self": "rec[%s]" % ML, "base": "str", "filename": "str"},
+    ensures=[
+        LOCKED,
+        # already loaded in this process: that module, nothing is executed again
+        "ext_call_result('registered', 0) is None or (ext_index('exec') == -1 and ext_index('setitem') == -1)",
+        # otherwise the file is executed exactly once and registered afterwards, under this name
+        "ext_call_result('registered', 0) is not None or (ext_index('exec') != -1 and ext_index('exec', 1) == -1 "
+        "and ext_index('setitem') > ext_index('exec') and ext_index('setitem', 1) == -1 "
+        "and ext_call_arg('setitem', 0, 1) == base and ext_call_arg('setitem', 0, 2) is ext_call_result('mkmodule', 0) "
+        "and ext_call_arg('exec', 0, 0) is ext_call_result('mkmodule', 0))",
+    ],
+    raises={'ModuleNotFoundError': {'ensures': [LOCKED, "ext_index('setitem') == -1"]},
+            # interrupted while the module's code runs: nothing was registered
+            '*': {'ensures': [LOCKED, "ext_raised_in('exec')", "ext_index('setitem') == -1"]}},
+    result="any",
+    ghost={'externals': LEXT2, 'open_world': True, 'opaque_subscript': True},
+    serves=["C15"],
+    notes="sys.modules is an opaque mapping: reads and the store are events of the ghost trace"))
